@@ -1009,7 +1009,7 @@ def _literal_value(node: ast.AST) -> bool:
         return getattr(node_value, node.func.attr)(*args)
 
     if isinstance(node, ast.Call) and not node.keywords:
-        if isinstance(node.func, ast.Name) and node.func.id in constants.BUILTIN_FUNCTIONS:
+        if isinstance(node.func, ast.Name) and node.func.id in constants.PURE_BUILTIN_FUNCTIONS:
             args = [literal_value(arg) for arg in node.args]
             return getattr(builtins, node.func.id)(*args)
 
